@@ -1163,13 +1163,16 @@ func TestC09(t *testing.T) {
 		}
 		return false
 	}
+	rawRun := func(phase string, conc int, qs []*c09req) {
+		qs = classify(qs)
+		rng.Split("shuffle/"+phase).Shuffle(len(qs), func(i, j int) { qs[i], qs[j] = qs[j], qs[i] })
+		e.parallel(conc, len(qs), func(i int) { e.rawOne(ctx, e.cl, qs[i], phase) })
+	}
 	rawBatch := func(phase string, conc int, qs []*c09req) {
 		if !on(phase) {
 			return
 		}
-		qs = classify(qs)
-		rng.Split("shuffle/"+phase).Shuffle(len(qs), func(i, j int) { qs[i], qs[j] = qs[j], qs[i] })
-		e.parallel(conc, len(qs), func(i int) { e.rawOne(ctx, e.cl, qs[i], phase) })
+		rawRun(phase, conc, qs)
 		e.endPhase(ctx, phase)
 	}
 
@@ -1271,9 +1274,9 @@ func TestC09(t *testing.T) {
 
 	// ---- phase 4: PRNG request strings, one batch per protocol
 	for _, p := range c09protos {
-		nf := vkit.Scale(700, 30000)
+		nf := vkit.Scale(1500, 30000)
 		if p == c09pEDS { // the identifier is the height alone
-			nf = vkit.Scale(250, 6000)
+			nf = vkit.Scale(400, 6000)
 		}
 		rawBatch("prng/"+p, 64, c09fuzzCases(rng.Split("fuzz/"+p), p, e.blocks, nf))
 	}
@@ -1352,10 +1355,12 @@ func TestC09(t *testing.T) {
 				}
 			})
 		}()
-		rawBatch("flood", 256, qs)
+		if on("flood") {
+			rawRun("flood", 256, qs)
+		}
 		<-held
 		if on("flood") {
-			e.endPhase(ctx, "flood+stalled")
+			e.endPhase(ctx, "flood")
 		}
 	}
 
